@@ -68,7 +68,17 @@ Inductive ctor :=
 | CtorAny                 (* accepts any argument tuple *)
 | CtorArity (n : nat)     (* raises TypeError (an Exception) unless len(args) = n *)
 | CtorNever               (* always raises an Exception subclass *)
-| CtorRaisesBase.         (* raises a BaseException that is not an Exception (KeyboardInterrupt ...) *)
+| CtorRaisesBase          (* raises a BaseException that is not an Exception (KeyboardInterrupt ...) *)
+| CtorTable (t : list (nat * list N)).
+                          (* a signature with defaults / a constructor that builds its own .args (taskiq's own
+                             exception classes): (n, extra) in t = called with n arguments it returns an instance
+                             whose .args are the given ones followed by `extra`; any other count raises TypeError *)
+
+Fixpoint assoc_nat {A : Type} (n : nat) (l : list (nat * A)) : option A :=
+  match l with
+  | [] => None
+  | (k, v) :: t => if Nat.eqb n k then Some v else assoc_nat n t
+  end.
 
 Inductive kind :=
 | KExc (c : ctor)         (* a class, subclass of BaseException *)
@@ -187,6 +197,11 @@ Definition pycall (t : target) (args : list N) : callres * list effect :=
           else (CRRaiseExc, [Instantiate t])
       | KExc CtorNever => (CRRaiseExc, [Instantiate t])
       | KExc CtorRaisesBase => (CRRaiseBase (oid o), [Instantiate t])
+      | KExc (CtorTable tb) =>
+          match assoc_nat (length args) tb with
+          | Some extra => (CRInst (CEnv (oid o)) (args ++ extra), [Instantiate t])
+          | None => (CRRaiseExc, [Instantiate t])
+          end
       | KClass => (CROther, [Instantiate t])
       | KFunc | KBuiltin | KInst true => (CROther, [Call t])
       | KInst false | KModule => (CRRaiseExc, [])          (* TypeError: object is not callable *)
